@@ -19,6 +19,7 @@ RULE = (
     ">=1 non-control per row, strict on/off; similarity matrix for 2..4 samples and 2..5 mapping entries with additive posterior samples. Non-trivial = unequal "
     "chain lengths, a repeated single-agent measurement, or a missing one, or a production-size evaluation. distinct = distinct case JSON."
     ' In a third of the evaluation cases every write request of save_h5 fails in turn with ENOSPC over an older archive (a save that returns normally must have saved).'
+    " Effect cases use id arrays of every integer width (int8 .. int64, uint16) with ids scaled to the top of the width's range."
 )
 ASSUMPTIONS = [
     "tolerance: 1e-10 relative to the metric's own value (the two variances additionally 1e-12 x the squared mean they are the spread around); 1e-10 / 1e-8 with a small absolute floor for effect arrays, synergy and the similarity matrix",
@@ -82,7 +83,10 @@ def _effects(draw):
         else:
             t = [draw(st.integers(-1, nt - 1)) for _ in range(a)]
         rows.append({"s": draw(st.integers(0, ns - 1)), "t": t, "o": draw(_u)})
-    return {"kind": "effects", "arity": a, "rows": rows, "strict": draw(st.booleans()), "int_obs": draw(st.sampled_from([None, None, None, 1, 3, 100]))}
+    # the ids as they come out of a screen (int64), or as narrower integers (a compact copy) holding ids of a large experiment space:
+    # sample s becomes s * s_step + s_base, treatment t becomes t * t_step + t_base (the control stays -1)
+    big = draw(st.sampled_from([None, None, None, ["int16", 97, 3, 89, 11], ["int16", 150, 0, 127, 2], ["int32", 23170, 7, 23170, 5], ["int32", 40000, 1, 30000, 0], ["int8", 11, 2, 12, 1], ["uint16", 255, 1, 257, 0], ["int64", 3037000500, 0, 3037000499, 1]]))
+    return {"kind": "effects", "arity": a, "rows": rows, "strict": draw(st.booleans()), "int_obs": draw(st.sampled_from([None, None, None, 1, 3, 100])), "big_ids": big}
 
 
 @st.composite
@@ -261,6 +265,10 @@ def _check_effects(case):
     a = case["arity"]
     sid = np.array([r["s"] for r in rows], dtype=int)
     tid = np.array([r["t"] for r in rows], dtype=int).reshape(len(rows), a)
+    if case.get("big_ids"):
+        dt_, s_step, s_base, t_step, t_base = case["big_ids"]
+        sid = (sid * s_step + s_base).astype(dt_)
+        tid = np.where(tid < 0, -1, tid * t_step + t_base).astype(dt_ if not dt_.startswith("u") else "int32")
     obs = np.array([r["o"] for r in rows], dtype=float)
     if case.get("int_obs"):
         # outcomes recorded as whole numbers (0/1 calls, counts) in an INTEGER array: the effects are still their exact means
